@@ -4,7 +4,7 @@
    MutableSequence mixins on top; Spec/ListSpec.v is Python's list.  Both are compared with the real
    classes AND with real Python lists on every run (three-way correspondence). *)
 From Coq Require Import ZArith List.
-From NV Require Import Common.Py Spec.ListSpec Model.TimeArray Proofs.C17Proofs.
+From NV Require Import Common.Py Spec.ListSpec Model.TimeArray Proofs.C17Proofs Proofs.C17Reverse.
 Open Scope Z_scope.
 
 (* slice assignment, for EVERY start/stop/step and EVERY replacement length: the shrink / grow /
@@ -16,10 +16,16 @@ Print Assumptions C17_slice_assignment.
 
 (* every operation (indexing, assignment, deletion, insert, append, extend (also with itself), +=, pop,
    remove, clear, index, count, len, iteration — all argument kinds incl. wrong-typed ones) gives the
-   list's answer, the list's error, and the list's resulting content.  reverse() is the one exception:
-   its swap loop is compared with rev by the correspondence only (C17 partial). *)
-Theorem C17_refines_list : forall l op, op <> OReverse -> step l op = spec_step l op.
-Proof. exact step_refines. Qed.
+   list's answer, the list's error, and the list's resulting content; reverse()'s swap loop computes
+   List.rev (C17_reverse_is_rev), so the statement holds for every operation *)
+Theorem C17_reverse_is_rev : forall l, a_reverse l = rev l.
+Proof. exact a_reverse_is_rev. Qed.
+Print Assumptions C17_reverse_is_rev.
+Theorem C17_refines_list : forall l op, step l op = spec_step l op.
+Proof.
+  intros l op. destruct op; try (apply step_refines; discriminate).
+  cbn [step spec_step]. rewrite a_reverse_is_rev. reflexivity.
+Qed.
 Print Assumptions C17_refines_list.
 
 (* a call that raises leaves the array exactly as it was (also part of C07) *)
